@@ -30,6 +30,7 @@ LEVEL = 'translation_validation'
 LEAN_TARGETS = ['MesonModel.Props.C04']
 AREAS = ['ninja']
 PINS = [
+    'mesonbuild.backend.ninjabackend:NinjaBackend.generate',
     'mesonbuild.backend.ninjabackend:ninja_quote',
     'mesonbuild.backend.ninjabackend:NinjaRule.write',
     'mesonbuild.backend.ninjabackend:NinjaBuildElement',
